@@ -108,7 +108,13 @@ class OggTheoraCommentDict(VCommentDict):
 
         fileobj.seek(0)
         page = OggPage(fileobj)
+        # The tags were read from the stream of the first identification
+        # header; other Theora streams in the file are not ours.
         while not page.packets or \
+                not page.packets[0].startswith(b"\x80theora"):
+            page = OggPage(fileobj)
+        serial = page.serial
+        while page.serial != serial or not page.packets or \
                 not page.packets[0].startswith(b"\x81theora"):
             page = OggPage(fileobj)
 
